@@ -15,8 +15,10 @@ Definition Tsum (l : list N) : T :=
 
 Definition msg_T (m : msg) : T := Tl [Tbool (fst m); Tsum (snd m)].
 
+(* the frames written during one operation are compared as one byte string: how the bytes are
+   distributed over write events is not part of the property *)
 Definition out_T (o : out) : T :=
-  Tl [Tlist msg_T (delivered o); Tlist Tsum (written o); Tnat (pclose o)].
+  Tl [Tlist msg_T (delivered o); Tsum (concat (written o)); Tnat (pclose o)].
 
 (* table of the masking keys the implementation drew from os.urandom, in order *)
 Definition key_table (keys : list (list N)) : nat -> list N :=
